@@ -4,6 +4,7 @@ Helper class for generating URL, query parameters, and header parameters for an 
 
 from __future__ import annotations
 
+import json
 import logging
 import re  # For _build_url_with_path_vars
 from typing import TYPE_CHECKING, Any, List
@@ -49,16 +50,17 @@ class EndpointUrlArgsGenerator:
         for i, p in enumerate(query_params_to_write):
             param_var_name = NameSanitizer.sanitize_method_name(p["name"])  # Ensure name is sanitized
             original_param_name = p["original_name"]
+            query_key_literal = json.dumps(original_param_name, ensure_ascii=False)  # wire name as a Python literal
             line_end = ","  # Always add comma, let formatter handle final one if needed
 
             if p.get("required", False):
                 writer.write_line(
-                    f'    "{original_param_name}": DataclassSerializer.serialize({param_var_name}){line_end}'
+                    f"    {query_key_literal}: DataclassSerializer.serialize({param_var_name}){line_end}"
                 )
             else:
                 # Using dict unpacking for conditional parameters
                 writer.write_line(
-                    f'    **({{"{original_param_name}": DataclassSerializer.serialize({param_var_name})}} '
+                    f"    **({{{query_key_literal}: DataclassSerializer.serialize({param_var_name})}} "
                     f"if {param_var_name} is not None else {{}}){line_end}"
                 )
 
@@ -80,18 +82,19 @@ class EndpointUrlArgsGenerator:
                 p_info["name"]
             )  # Sanitized name used in method signature
             original_header_name = p_info["original_name"]  # Actual header name for the request
+            header_key_literal = json.dumps(original_header_name, ensure_ascii=False)  # wire name as a Python literal
             line_end = ","
 
             if p_info.get("required", False):
                 writer.write_line(
-                    f'    "{original_header_name}": DataclassSerializer.serialize({param_var_name}){line_end}'
+                    f"    {header_key_literal}: DataclassSerializer.serialize({param_var_name}){line_end}"
                 )
             else:
                 # Conditional inclusion for optional headers
                 # This assumes that if an optional header parameter is None, it should not be sent.
                 # If specific behavior (e.g. empty string) is needed for None, logic would adjust.
                 writer.write_line(
-                    f'    **({{"{original_header_name}": DataclassSerializer.serialize({param_var_name})}} '
+                    f"    **({{{header_key_literal}: DataclassSerializer.serialize({param_var_name})}} "
                     f"if {param_var_name} is not None else {{}}){line_end}"
                 )
 
